@@ -257,8 +257,24 @@ def outcome(spec, target):
         return ('ok', '<unreprable>')
 
 
-def same_outcome(a, b):
-    return a is None or b is None or a == b
+def same_outcome(a, b, strict=True):
+    if a is None or b is None or a == b:
+        return True
+    # repr prints keyword arguments in key order: when the original has them in another order
+    # and evaluating two of them fails, which failure surfaces first differs (both fail)
+    return (not strict) and a[0] == 'exc' and b[0] == 'exc'
+
+
+def kwargs_sorted(x):
+    if isinstance(x, dict):
+        if 'call' in x:
+            ks = [k for k, _ in x['call']['kwargs']]
+            if ks != sorted(ks):
+                return False
+        return all(kwargs_sorted(v) for v in x.values())
+    if isinstance(x, list):
+        return all(kwargs_sorted(v) for v in x)
+    return True
 
 
 def run_repr(case):
@@ -272,7 +288,8 @@ def run_repr(case):
     if y is not None and enc_obj(y) is not None:
         obs['eval'] = enc_obj(y)
         obs['text2'] = repr(y)
-        obs['same_eval'] = all(same_outcome(outcome(x, t), outcome(y, t)) for t in sample_targets())
+        strict = kwargs_sorted(case['obj'])
+        obs['same_eval'] = all(same_outcome(outcome(x, t), outcome(y, t), strict) for t in sample_targets())
     try:
         z = pickle.loads(pickle.dumps(x))
         obs['pickled'] = enc_obj(z)
@@ -586,6 +603,9 @@ def gen_concat(r, tier, n_cases):
     maxlen = 6 if tier == 'quick' else 10
     for _ in range(n_cases):
         heap, root = c01.gen_target(r, False, r.choice([2, 3, 4, 5]))
+        # CPython has one empty tuple: two empty-tuple cells would be the same object
+        while sum(1 for c in heap if c['c'] == 'tuple' and not c['v']) > 1:
+            heap, root = c01.gen_target(r, False, r.choice([2, 3, 4, 5]))
         walk, _ = c01.valid_walk(r, heap, root, r.randint(0, maxlen))
         steps = []
         for kind, key, _cur in walk:
